@@ -257,8 +257,10 @@ class SetEncoder(encoder.SequenceEncoder):
                             valueObject, namedType, encodeFun, options):
                         continue
 
-                if namedType.isDefaulted and self._isDefault(
-                        component, namedType, encodeFun, options):
+                if (namedType.isDefaulted and
+                        isinstance(component, base.Asn1Item) and
+                        self._isDefault(
+                            component, namedType, encodeFun, options)):
                     continue
 
                 compsMap[id(component)] = namedType
